@@ -170,6 +170,14 @@ SEEDS = {
     "C15h-upper-clamp-before-step": ("C15", "the stochastic tracker with a particle within a few noise widths of the last energy row (narrow energy range, particle clamped to the top row): the upper bound is applied before the damping/noise step is subtracted, the particle ends above row n-1", ["C17"]),
     "C17h-txt-particles-sized-by-newlines": ("C17", "a text start distribution with more coordinate pairs than newline characters (last line unterminated, several pairs on one line): pairs are stored into a vector sized by the newline count", []),
     "C18h-padding-cleared-by-bytes": ("C18", "one field object serving wake/padding and then CSR requests with two or more bunches: updateCSR clears the padding with memset(count in samples), only a quarter of it - left-overs of the train beyond nx + (nmax-nx)/4 are transformed along", ["C07", "C06"]),
+    "C02i-odd-stencil-round-vs-remainder-tie": ("C02", "3-point interpolation and an offset of exactly k+0.5 with n/2+k even (0.5, 2.5, -1.5 on power-of-two grids): the stencil centre comes from round() (halves away from zero), the fraction from remainder() (halves to even) - one full cell off", ["C01", "C15"]),
+    "C06i-loss-spectrum-filled-up-to-last-sample": ("C06", "an impedance that is exactly zero from some frequency below N/2 on and a second wakePotential() call on the same field: the loss spectrum is only filled up to the last non-zero sample, the inverse transform's leftovers above it are never rewritten", ["C18", "C07"]),
+    "C07i-spectrum-loop-stops-at-grid-size": ("C07", "a padding factor above 2 and a profile with structure finer than the padding factor in cells: the spectrum / power loop runs over the grid size instead of the padded length, bins nx..N/2 are left out", ["C10", "C18"]),
+    "C09i-normalize-by-rectangle-charge": ("C09", "a profile with cell-to-cell structure (macro-particle start, odd/even pattern): normalize() measures the bunch charge with the rectangle rule on the spot while populations are Simpson integrals - after renormalisation a bunch integrates to share x Simpson/rectangle", ["C10", "C04"]),
+    "C10i-projection-update-skipped-off-cadence": ("C10", "no beam-dynamics impedance, RenormalizeCharge <= 0, a final step off the output cadence and an evolving distribution: the position projection is only refreshed when somebody looks, the final block does not look - its profile, population, moments are those of the last output step", ["C14", "C12"]),
+    "C01i-row-copy-cache-wrong-initial-state": ("C01", "a displacement field that BEGINS with rows exactly at rest (row 0 onwards) and charge in those rows: a 'same offset as the row before' shortcut starts with lastoffs = 0 and copies never-computed scratch entries (weight 0) - those rows are zeroed", ["C02", "C08"]),
+    "C03i-fraction-from-offset-hair-beyond-zero": ("C03", "a grid shift that puts a mesh point a hair beyond the axis zero (--PhaseSpaceShiftX/Y 0.49998): the kick of that row is about -1e-6 cells, the fraction is taken from the offset and the origin from the rounded sum - the row through the bunch centre moves one cell every step", ["C02", "C01"]),
+    "C08i-identical-bunch-copy-from-bunch0": ("C08", "three or more bunches with a run of bit-identical bunches that does not start at bunch 0 and differs from bunch 0 (-I 2e-3 1e-3 1e-3), no impedance: the drift copies the result of 'the predecessor' from bunch 0's block", ["C03"]),
     "C10-": ("C10", "", []),
     "C17-": ("C17", "", []),
 }
